@@ -208,25 +208,32 @@ struct _stream<Values...>::type final {
             // Take a copy of the values before destroying the next operation
             // state in case the values are references to objects stored in
             // the operation object.
+            // *this lives inside the operation state that is about to be
+            // destroyed: read the members first.
+            next_receiver_base& receiver = receiver_;
+            stream& strm = stream_;
             [&](Values... values) {
-              unifex::deactivate_union_member(stream_.next_);
-              receiver_.set_value((Values&&)values...);
+              unifex::deactivate_union_member(strm.next_);
+              receiver.set_value((Values&&)values...);
             }((Values&&)values...);
           }
           UNIFEX_CATCH(...) {
+            next_receiver_base& receiver = receiver_;
             unifex::deactivate_union_member(stream_.next_);
-            receiver_.set_error(std::current_exception());
+            receiver.set_error(std::current_exception());
           }
         }
 
         void set_done() && noexcept {
+          next_receiver_base& receiver = receiver_;
           unifex::deactivate_union_member(stream_.next_);
-          receiver_.set_done();
+          receiver.set_done();
         }
 
         void set_error(std::exception_ptr ex) && noexcept {
+          next_receiver_base& receiver = receiver_;
           unifex::deactivate_union_member(stream_.next_);
-          receiver_.set_error(std::move(ex));
+          receiver.set_error(std::move(ex));
         }
 
         template <typename Error>
@@ -262,13 +269,15 @@ struct _stream<Values...>::type final {
         stream& stream_;
 
         void set_done() && noexcept {
+          cleanup_receiver_base& receiver = receiver_;
           unifex::deactivate_union_member(stream_.cleanup_);
-          receiver_.set_done();
+          receiver.set_done();
         }
 
         void set_error(std::exception_ptr ex) && noexcept {
+          cleanup_receiver_base& receiver = receiver_;
           unifex::deactivate_union_member(stream_.cleanup_);
-          receiver_.set_error(std::move(ex));
+          receiver.set_error(std::move(ex));
         }
 
         template <typename Error>
